@@ -388,9 +388,19 @@ func (su *suite) run(sc *scenario) {
 	gainedInFault := s.held_total() - initial
 
 	// ---- fair phase
-	s.phase = "round"
+	// the fair suffix starts when the last message of the fault phase (delayed, duplicated, stale, forged ones included) has been
+	// delivered and one conversation timeout has passed since: what the adversary left behind is flushed first, not counted as a round
+	s.phase = "lush"
 	s.releaseDue(true)
-	s.timeoutAll() // the fault phase ended at least one conversation timeout ago
+	flushed := len(s.inflight)
+	stepCap := 4000 + 400*len(s.nodes)*sc.pages()
+	for k := 0; len(s.inflight) > 0 && k < stepCap; k++ {
+		s.step++
+		s.deliver(s.take(s.rnd.Intn(len(s.inflight))), "deliver")
+	}
+	s.stat("leftover_messages_flushed", flushed)
+	s.timeoutAll()
+	s.phase = "round"
 	R := sc.bound()
 	hardCap := 10 * R
 	rounds, conv, capHits := 0, s.converged(), 0
